@@ -345,6 +345,11 @@ func nonSharedCall(e Expr) (any bool, nested bool) {
 	return
 }
 
+func pathCase(envID int, path string) Case {
+	e := Expr{K: "path", V: path}
+	return Case{Fam: "path", Env: envID, E: &e, Pos: allExprPos}
+}
+
 // finishExpr applies the open-finding regions to an expression case: positions are removed
 // exactly where a recorded defect shows.
 func (g *gen) finishExpr(c Case) (Case, bool) {
@@ -391,6 +396,9 @@ func (g *gen) genExprCase(t *rapid.T) Case {
 }
 
 func (g *gen) genExprCase0(t *rapid.T) Case {
+	if rapid.IntRange(0, 19).Draw(t, "ownpath") == 0 {
+		return pathCase(rapid.IntRange(0, nEnvs-1).Draw(t, "env"), pick(t, "ownpath", ownPaths))
+	}
 	envID := rapid.IntRange(0, fnEnv).Draw(t, "env")
 	env := envOf(envID)
 	g.fn = envID == fnEnv
@@ -842,6 +850,18 @@ func classify(c Case) (bool, []string) {
 		}
 	}
 	switch c.Fam {
+	case "path":
+		cls = append(cls, "A:own-syntax path")
+		if dotIndex(c.E.V) {
+			cls = append(cls, "A:own-syntax numeric dot step")
+		}
+		if strings.Contains(c.E.V, "-") {
+			cls = append(cls, "A:own-syntax hyphenated key")
+		}
+		if v, ok := resolve(envOf(c.Env), c.E.V); ok {
+			cls = append(cls, fmt.Sprintf("A:own-syntax truthy=%v", truthy(v)))
+		}
+		return true, cls
 	case "neg":
 		cls = append(cls, "A:neg-nonbool")
 		return true, cls
